@@ -213,4 +213,48 @@ theorem maptogroup_extra_key_ignored (fs : GFields) (r d k : Nat) (v : Val) (es 
 
 example : (9 : Nat) ∉ namesF (.cons 7 (.opt .leaf) (.cons 8 .leaf .nil)) := by decide
 
+/-- The hypothesis of `maptogroup_store_eq_rowpath` is exact: for every group schema and every map,
+a row that fails `okF` makes the value writers leave, in some column of an optional buffer, an entry
+at the maximum definition level without a value (the situation of the witness above). -/
+theorem maptogroup_not_ok_leaves_level_without_value (fs : GFields) (r : Nat) (es : List Val)
+    (h : okF fs true (some es) = false) :
+    HasHole (wvF fs r 0 (some es)) (maxDefsF fs 0) :=
+  wvF_hole fs true r 0 (some es) h (fun ht => by simp at ht)
+
+example : okF (.cons 0 (.opt (.group (.cons 1 .leaf (.cons 2 .leaf .nil)))) .nil) true
+    (some [.struct [.prim 0, .some (.list [])]]) = false := by decide
+
+/-- The map as a record member on an OPTIONAL group node (`writeRowsFuncOfStruct`: the bitmap branch
+of `writeRowsFuncOfOptional`, nil map = null, over `writeRowsFuncOfMapToGroup`, any / default
+branches): one typed `Write` of ANY batch (nil maps, empty maps, missing and extra keys, null runs
+of any length) writes, for every group schema, the concatenation row by row of the shred of the
+optional group value the map stands for. Reduction: the map-to-group writer is the canonical sound
+writer of the group on resolved rows (`wrM2GVal_canon`), resolving commutes with the optional
+wrapper (`wrOptional_map`), then `wrOptional_sound` (null-run scan theorem of round 4). -/
+theorem maptogroup_optional_member_eq_reflect (fs : GFields) (batch : List Val) :
+    m2gOptWrite fs batch =
+      joinSegs (leavesF (eraseGF fs)) (batch.map fun row =>
+        shredN (.opt (.group (eraseGF fs))) 0 0 0 (resolveN (.opt (.group fs)) row)) := by
+  unfold m2gOptWrite
+  cases batch with
+  | nil => simp [joinSegs]
+  | cons b bs =>
+    simp only [List.isEmpty_cons, Bool.false_eq_true, if_false]
+    have hfun : wrM2GVal fs =
+        fun r k d vs => canonW (.group (eraseGF fs)) r k d (vs.map (resolveN (.group fs))) := by
+      funext r k d vs; exact wrM2GVal_canon fs r k d vs
+    have h1 : ∀ v, isSome (resolveN (.opt (.group fs)) v) = isSome v := by
+      intro v; cases v <;> simp [resolveN, isSome]
+    have h2 : ∀ v, unopt (resolveN (.opt (.group fs)) v) = resolveN (.group fs) (unopt v) := by
+      intro v; cases v <;> simp [resolveN, unopt]
+    rw [hfun, wrOptional_map (leavesF (eraseGF fs)) (canonW (.group (eraseGF fs)))
+      (resolveN (.group fs)) (resolveN (.opt (.group fs))) h1 h2]
+    have hs := (wrOptional_sound (canonW_sound (.group (eraseGF fs))) 0 0 0).1
+      ((b :: bs).map (resolveN (.opt (.group fs)))) (by simp)
+    simpa [leavesN, List.map_map, Function.comp_def] using hs
+
+example : m2gOptWrite (.cons 1 .leaf (.cons 2 (.opt .leaf) .nil))
+    [.some (.list [.struct [.prim 1, .prim 11]]), .none, .some (.list [.struct [.prim 2, .some (.prim 13)], .struct [.prim 1, .prim 12]])] =
+    [[⟨some 11, 0, 1⟩, ⟨none, 0, 0⟩, ⟨some 12, 0, 1⟩], [⟨none, 0, 1⟩, ⟨none, 0, 0⟩, ⟨some 13, 0, 2⟩]] := by decide
+
 end PqModel.Props.C03MapToGroup
